@@ -73,8 +73,11 @@ class C13(PropBase):
             "random release of parked lookups, multi-thread tokio) with a fresh Symbolizer and per-run rotated supplier delay scripts; "
             "print_json + print + print_brief bytes must be identical in all runs. Inputs: the C03 structured dump generator (threads "
             "sharing modules, hostile CFI / STACK WIN, Linux streams) plus targeted families: many-line /proc limits, arm64 CFI with "
-            "aliasing targets (x29/fp, x30/lr), two modules with one leaf name, evil-json certificates listing one module twice. "
-            "R cases: names of the proc_limits array against the model. Non-trivial = at least one thread processed; "
+            "aliasing targets (x29/fp, x30/lr), two modules with one leaf name, evil-json certificates listing one module twice, "
+            "Linux key/value streams (lsb/status/cpuinfo/environ/limits) over the key literals of the readers with conflicting duplicates, "
+            "33..80 threads with a per-module suspension script (completion order != thread order); rendering 0 is the synchronous one and "
+            "threads[] must be in thread-list order. "
+            "R cases: names of the proc_limits array against the model; E: cert_subject per module; L: lsb_release fields, text line, pid, microcode. Non-trivial = at least one thread processed; "
             "distinct = distinct case lines")
     trusted_base = [
         "Coq 8.16.1 kernel (vm_compute only in witnesses / Examples)",
@@ -82,6 +85,10 @@ class C13(PropBase):
         "(equal output for distinct keys); join_all modelled as slot-by-index filling",
         "C12/Model.v (other owner) as the semantics of the shared Symbolizer (tasks = per-thread lookup lists, futures-util Mutex, stats keyed by "
         "leaf name), tied to the code by C12's own executor correspondence; C03/Model.v for the limits parser",
+        "C13/Linux.v: linux_list_iter / LinuxStandardBase::from / LinuxProcStatus::from / get_microcode_version hand-modelled on ASCII input "
+        "(to_string_lossy is the identity there), correspondence-checked (L cases); walks in place = events (i, f) that transform slot i only",
+        "translate/c13_sites.py (name-based regex/bracket scan, not a type checker: hash containers reached through pattern bindings, aliases or "
+        "generics are not seen) and C13/Sites.v (the classification of each site is a reading of the code)",
         "extraction ExtrOcamlBasic only; ocaml/c13/main.ml; harness/src/bin/c13.rs + harness/src/dumpspec.rs",
         "the direct oracle is testing: it shows byte-identical output on the schedules / hash seeds it ran, nothing more",
     ]
@@ -92,7 +99,8 @@ class C13(PropBase):
         "from earlier answers are covered by the oracle only",
         "c13_stats_independent needs the visible hypothesis leaf_injective (distinct module keys have distinct leaf names); without it "
         "c13_stats_refuted holds and the code shows it (known finding F-C13c)",
-        "CFI rule order (F-C13b) is C06's theorem; here only exercised (arm64 alias inputs)",
+        "CFI rule order (F-C13b) is C06's theorem; here the sort is pinned by the site scan and exercised (arm64 alias inputs)",
+        "MultiSymbolProvider::stats extends one map with each provider's map: order matters only if two providers report the same leaf name (not modelled)",
     ]
     manifest = {
         "text": "partial: theorems (Coq) for the order-sensitive cores — the proc_limits array and the evil-json certificate map render identically for "
@@ -100,8 +108,13 @@ class C13(PropBase):
                 "emitted by membership only, join_all returns outputs by index for every completion order, every thread's symbol answers (hence its "
                 "frames) and, when module keys have distinct leaf names, the symbol-stats snapshot are the same under all schedules that finish (on "
                 "the C12 model, all task/key counts), including the rendered modules[] stats fields (c13_modules_json_independent / _determined); refutations with witnesses for the pre-fix renderers (F-C13a, F-C13d) and for stats without the "
-                "leaf-name hypothesis (F-C13c, known). Everything beyond these cores is checked by a direct oracle only: the same input processed "
-                ">= 18 times in-process (fresh hash seeds) under three executors and rotated supplier delays must give byte-identical JSON and text.",
+                "leaf-name hypothesis (F-C13c, known). Round 4: LinuxStandardBase::from is the file-order fold, every field = the last line that feeds it "
+                "(key table regenerated from the match arms; c13_lsb_last_wins, c13_lsb_report_determined) and the HashMap-then-fold variant is refuted; "
+                "walks that mutate their own slot of state.threads give the same thread list under every interleaving (c13_walks_in_place_*), "
+                "collecting results in completion order is refuted; every HashMap/HashSet iteration and every future combinator the source scan finds "
+                "is one of the enumerated, classified sites (c13_hash_sites_modelled, c13_concurrency_sites_modelled). Everything beyond these cores is checked by a direct oracle only: the same input processed "
+                ">= 13 times in-process (fresh hash seeds; first synchronously, then under three executors with rotated supplier delays / per-module "
+                "suspension counts) must give byte-identical JSON and text with threads[] in thread-list order.",
         "note": "Trusted: Coq kernel; hand-written models (limits renderer correspondence-checked here, Symbolizer model by C12); the oracle is search, not proof. "
                 "Known: F-C13c (stats keyed by leaf name; API-level).",
     }
